@@ -466,6 +466,14 @@ class CurveFitting(object):
         if abs(r) < TOL and abs(t) < TOL and abs(m) >= TOL:
             return (u / m, 0.0, 0.0)
 
+        if abs(t) < TOL and abs(m) >= TOL and abs(r) >= TOL:
+            # Only two functions were given: Solve the 2x2 normal equations
+            d = m * r - p * p
+            if abs(d) < TOL or len(set([float(x) for x in xl])) < 2:
+                raise ZeroDivisionError(
+                    "Input data leads to a division by zero")
+            return ((u * r - v * p) / d, (v * m - u * p) / d, 0.0)
+
         if abs(m * r * t) < TOL:
             raise ZeroDivisionError("Invalid input functions: They are null")
 
